@@ -481,4 +481,6 @@ def run(ctx):
     _fam.reader(ctx, "C08", module=True)
     _fam.mapping_list(ctx, "C08")
     _fam.module_ident(ctx, "C08")
-
+    # the stream reaches the caller's file where the directory says, wherever in the destination the dump starts (rules/families.py)
+    from rules import families as _famd
+    _famd.destination(ctx, "C08")
